@@ -190,7 +190,7 @@ impl Family for GoForms {
         600
     }
     fn rule(&self) -> &'static str {
-        "generated `go` programs over two shared cells: 7 forms of the spawned value (closure literal, let-bound closure, closure made by a call, closures joined by an if, struct field, vector element, closure calling a worker function) x 7 places of the `go` (main, if branch, while body run twice = two activations, called function, called closure, match arm, inside another goroutine) x goroutine bodies of 1-2 operations over {print, print a read, write, increment, count done} (30) x continuations of the spawner of 0-2 operations over {print, print a read, increment, spin-wait} (21). quick: every form x place with 6 bodies x 5 continuations, plus literal-in-main with every body and continuation; thorough: the whole product (30870). Every program: stateless DFS over every schedule of the emitted Go and of the reference semantics, yielding at every cell operation, print, spawn and loop back-edge (quick: preemption bound 2; thorough: bounds 2, 3, 4, 6, 8, unbounded in turn, capped at 50000 schedules per side; the largest completed bound decides); oracle: equal sets of terminal observations (stdout, end). states = scheduling points visited, transitions = schedules executed; non-trivial = programs with > 1 distinct outcome"
+        "generated `go` programs over two shared cells: 7 forms of the spawned value (closure literal, let-bound closure, closure made by a call, closures joined by an if, struct field, vector element, closure calling a worker function) x 7 places of the `go` (main, if branch, while body run twice = two activations, called function, called closure, match arm, inside another goroutine) x goroutine bodies of 1-2 operations over {print, print a read, write, increment, count done} (30) x continuations of the spawner of 0-2 operations over {print, print a read, increment, spin-wait} (21). quick: every form x place with 6 bodies x 5 continuations, plus literal-in-main with every body and continuation; thorough: the whole product (30870). Every program: stateless DFS over every schedule of the emitted Go and of the reference semantics, yielding at every cell operation, print, spawn and loop back-edge (quick: preemption bound 2; thorough: bounds 2, 3, unbounded in turn, each capped at 4000 schedules per side; the largest completed bound decides and is reported per program); oracle: equal sets of terminal observations (stdout, end). states = scheduling points visited, transitions = schedules executed; non-trivial = programs with > 1 distinct outcome"
     }
     fn cases(&self, tier: Tier) -> Box<dyn Iterator<Item = Value> + '_> {
         let (bs, ts) = (bodies(), tails());
@@ -235,7 +235,8 @@ impl Family for GoForms {
         let t: Vec<&str> = tail.iter().map(|s| s.as_str()).collect();
         let prog = build(form, place, &b, &t);
         let name = format!("form={};place={};body={};tail={}", form, place, body.join("+"), tail.join("+"));
-        let mut rep = explore_program(&name, &prog, ctx, 20_000);
+        let (cap, bounds): (u64, Vec<Option<u32>>) = if ctx.tier == Tier::Quick { (20_000, vec![Some(2)]) } else { (4_000, vec![Some(2), Some(3), None]) };
+        let mut rep = explore_program(&name, &prog, ctx, cap, bounds);
         rep.tag(format!("form:{}", form));
         rep.tag(format!("place:{}", place));
         rep
